@@ -2,7 +2,7 @@
    builder's (Builders.v), signed by the right wallets, SUCCEEDS in every world that satisfies an explicit phase
    precondition, under the whole transaction semantics of Exec.v (tx_wf, message-level flags, per-instruction lamport
    balance, rent-state rule, purge), and establishes the stated post-state.
-   Part 1 (this file): infrastructure, pay-debt, the loop over a whole debt tree.  Index at the end of Lemmas_C13c.v. *)
+   Part 1 (this file): infrastructure, pay-debt, the loop over a whole debt tree.  Index at the end of Lemmas_C13f.v. *)
 From DZ Require Import Base Keys Merkle BurnRate Shares Swap_Ring State World SwapDeq RD Passport Swap Exec Corr Builders
   Lemmas_Merkle Lemmas_RdSpecs5.
 
